@@ -12,7 +12,8 @@ from asphalt.core import Context, current_context, get_resources, start_backgrou
 OUTCOMES = ["returns after 1 checkpoint", "still running when the owner is left (3 checkpoints)", "raises an Exception",
             "cancelled through the handle right after the spawn", "cancelled through the handle after 1 checkpoint",
             "returns at once (no checkpoint, no teardown callback of its own)",
-            "blocks until it is cancelled (through its handle before the owner is left, or by a crashing sibling)"]
+            "blocks until it is cancelled (through its handle before the owner is left, or by a crashing sibling)",
+            "returns after 1 checkpoint; the teardown callback of its own context then blocks until the task is cancelled through its handle"]
 SITES = ["owner context", "a child context of the owner", "another task running in an unrelated context"]
 HANDLERS = ["no exception handler", "handler returns True", "handler returns False", "handler returns 1 (truthy, not True)"]
 
@@ -26,7 +27,7 @@ def params(tier):
     nt = 2
     ps = [P("ntask", 0, nt - 1), P("site", 0, 2), P("nested", 0, 1), P("handler", 0, 3), P("fstart", 0, 1)]
     for i in range(nt):
-        ps += [P(f"api{i}", 0, 1), P(f"out{i}", 0, 6)]
+        ps += [P(f"api{i}", 0, 1), P(f"out{i}", 0, 7)]
     for j in range(D):
         ps += [P(f"gap{j}", 0, L), P(f"arm{j}", 0, 3)]
     return ps
@@ -39,7 +40,7 @@ def fn(a, tier):
     nt = 1 + pick(a["ntask"], ntmax)
     site, nested = pick(a["site"], 3), pick(a["nested"], 2)
     apis = [pick(a[f"api{i}"], 2) for i in range(nt)]
-    outs = [pick(a[f"out{i}"], 7 if (i == 0 or tier != "quick") else 3) for i in range(nt)]
+    outs = [pick(a[f"out{i}"], 8 if (i == 0 or tier != "quick") else 3) for i in range(nt)]
     handler_kind = pick(a["handler"], 4) if 2 in outs else 0
     fstart = pick(a["fstart"], 2)  # 1: factory started through the owner's METHOD while another (nested, short-lived) context is current
     tape = DeviationTape([(a[f"gap{j}"], a[f"arm{j}"]) for j in range(D)], L)
@@ -48,6 +49,7 @@ def fn(a, tier):
     errors = {i: BodyErr(f"task{i}") for i in range(nt)}
     Cancelled = symsched.Cancelled
     before_res, after_res = object(), object()
+    fac_products = {}
 
     def handler(exc):
         info["handler_calls"].append(exc)
@@ -58,6 +60,7 @@ def fn(a, tier):
             ctx = current_context()
             info[("parent", i)] = ctx.parent
             info[("sees", i)] = (dict(get_resources(RT[0])), dict(get_resources(RT[1])))
+            info[("fac", i)] = (ctx.get_resource_nowait(RT[3], "beforefac", optional=True), ctx.get_resource_nowait(RT[2], "afterfac", optional=True))
             log.append(("begin", i))
             if outs[i] == 5:
                 log.append(("ctx_closed", i))  # nothing of its own to tear down
@@ -69,9 +72,19 @@ def fn(a, tier):
                     await anyio.sleep(0)
                 log.append(("ctx_closed", i))
 
-            ctx.add_teardown_callback(own_teardown)
+            async def blocking_teardown():
+                log.append(("td_begin", i))
+                try:
+                    await anyio.sleep_forever()
+                except BaseException as e:
+                    log.append(("saw", i, "cancel" if isinstance(e, Cancelled) else type(e).__name__))
+                    raise
+                finally:
+                    log.append(("ctx_closed", i))
+
+            ctx.add_teardown_callback(blocking_teardown if outs[i] == 7 else own_teardown)
             try:
-                steps = {0: 1, 1: 3, 2: 1, 3: 2, 4: 3, 5: 0, 6: 0}[outs[i]]
+                steps = {0: 1, 1: 3, 2: 1, 3: 2, 4: 3, 5: 0, 6: 0, 7: 1}[outs[i]]
                 for _ in range(steps):
                     await anyio.sleep(0)
                 if outs[i] == 6:
@@ -135,6 +148,7 @@ def fn(a, tier):
         async with Context() as owner:
             info["owner"] = owner
             owner.add_resource(before_res, "before", [RT[0]])
+            owner.add_resource_factory(lambda: fac_products.setdefault("before", object()), "beforefac", types=[RT[3]])
             if fstart:
                 async with Context():
                     tf = info["tf"] = await owner.start_background_task_factory(exception_handler=handler if handler_kind else None)
@@ -142,6 +156,7 @@ def fn(a, tier):
             else:
                 tf = info["tf"] = await start_background_task_factory(exception_handler=handler if handler_kind else None)
             owner.add_resource(after_res, "after", [RT[1]])
+            owner.add_resource_factory(lambda: fac_products.setdefault("after", object()), "afterfac", types=[RT[2]])
             if site == 0:
                 await spawn_all(tf)
             elif site == 1:
@@ -167,7 +182,14 @@ def fn(a, tier):
                 if outs[i] == 6 and not will_crash:
                     info[("live_at_cancel", i)] = ("end", i) not in log
                     info["handles"][i].cancel()
-            if will_crash and 6 in outs:
+                if outs[i] == 7 and not will_crash:
+                    for _ in range(20):
+                        if ("td_begin", i) in log:
+                            break
+                        await anyio.sleep(0)
+                    info[("live_at_cancel", i)] = ("td_begin", i) in log and ("ctx_closed", i) not in log
+                    info["handles"][i].cancel()
+            if will_crash and (6 in outs or 7 in outs):
                 # a declined exception must take the blocked sibling down by itself: nobody releases it
                 await anyio.sleep(50)
             log.append(("leaving",))
@@ -237,6 +259,9 @@ def fn(a, tier):
             sees0, sees1 = info[("sees", i)]
             if set(sees0) != {"before", "unrelated"} or sees0["before"] is not before_res or set(sees1) != set():
                 return FAIL(f"task-sees-wrong-resources:site={site}", f"{sees0} {sees1}", summary)
+            fb, fa = info[("fac", i)]
+            if fb is None or fa is not None:
+                return FAIL(f"task-sees-wrong-resource-factories:site={site}:before={'visible' if fb is not None else 'missing'}:after={'visible' if fa is not None else 'hidden'}", "", summary)
         if ("end", i) in pos and pos[("end", i)] > pos[("left",)]:
             return FAIL("owner-left-before-task-ended", log, summary)
         if ("begin", i) in pos and ("end", i) not in pos:
@@ -244,7 +269,7 @@ def fn(a, tier):
         saw_cancel = ("saw", i, "cancel") in pos
         if outs[i] in (0, 1, 2, 5) and saw_cancel:
             return FAIL(f"task-cancelled-although-not-requested:out={outs[i]}", log, summary)
-        if outs[i] in (3, 4, 6) and ("begin", i) in pos and info.get(("live_at_cancel", i)) and not saw_cancel:
+        if outs[i] in (3, 4, 6, 7) and ("begin", i) in pos and info.get(("live_at_cancel", i)) and not saw_cancel:
             return FAIL(f"cancel-through-handle-lost:out={outs[i]}:api={apis[i]}", log, summary)
         if ("waited", i) not in pos:
             return FAIL(f"wait_finished-never-returned:out={outs[i]}", log, summary)
